@@ -90,7 +90,7 @@ def shard(ctx):
 
     strat = st.tuples(st.one_of(progs.programs(profile='shape'), progs.programs(profile='shape', level=(3, 12)), progs.programs(profile='syntax')),
                       rename_option_sets())
-    hyp_run(ctx, 'shape', strat, prop, ctx.n(6000, 200000))
+    hyp_run(ctx, 'shape', strat, prop, ctx.n(4000, 200000))
 
     # corpus files (thorough only: real modules are big)
     if ctx.tier == 'thorough':
@@ -144,4 +144,4 @@ def shard(ctx):
         ctx.case(sha(prog.source, api.opts_key(opts), '3.11'), nt, classes=['interp:3.11'] + (['renamed:3.11'] if rep['renamed'] else []),
                  sample={'interpreter': '3.11', 'source': prog.source[:300], 'renamed': rep['renamed'][:6]})
 
-    hyp_run(ctx, 'w311', st.tuples(progs.programs(profile='shape', level=(3, 11)), rename_option_sets()), prop_w, ctx.n(3000, 100000))
+    hyp_run(ctx, 'w311', st.tuples(progs.programs(profile='shape', level=(3, 11)), rename_option_sets()), prop_w, ctx.n(1600, 100000))
